@@ -3,11 +3,13 @@
   (`strip`, `__matching__`, `__next_token__`, the `while` loop) cuts the text
   `render sp e` of an expression of the notation — whatever the spacing `sp` — into exactly
   the token tree `e.toks`, and the character-level machine `autoType` run on a text that the
-  tokenizer cuts into `ts` is the token-level machine `autoTypeToks ts`.
+  tokenizer cuts into `ts` is the token-level machine `autoTypeToks sx ts`.
 -/
 import PS.Proofs.ParseType
 namespace PS.C15
 open PS TyExpr
+
+variable {sx : Bool}
 
 /-! ## `strip` -/
 
@@ -304,7 +306,7 @@ theorem takeWhile_append_stop {α} (p : α → Bool) (a b : List α) (ha : ∀ x
 
 theorem nextToken_name (w rest : Str) (hw : goodName w = true)
     (hr : ∀ c r, rest = c :: r → isWordChar c = false) :
-    nextToken (w ++ rest) = .ok (w, .none, w.length) := by
+    nextToken sx (w ++ rest) = .ok (w, .none, w.length) := by
   cases w with
   | nil => simp [goodName] at hw
   | cons c w =>
@@ -315,14 +317,14 @@ theorem nextToken_name (w rest : Str) (hw : goodName w = true)
 
 theorem nextToken_pvar (w rest : Str) (hw : ∀ x ∈ w, isWordChar x = true)
     (hr : ∀ c r, rest = c :: r → isWordChar c = false) :
-    nextToken ('\'' :: w ++ rest) = .ok (w, .poly, w.length + 1) := by
+    nextToken sx ('\'' :: w ++ rest) = .ok (w, .poly, w.length + 1) := by
   have ht := takeWhile_append_stop isWordChar w rest hw hr
   have e : isAlpha '\'' = false := by decide
   simp [nextToken, ht, e, Nat.add_comm]
 
 theorem nextToken_op (w rest : Str) (hw : goodOp w = true)
     (hr : ∀ c r, rest = c :: r → (isAlpha c || isSpecial c) = true) :
-    nextToken (w ++ rest) = .ok (w, .infx, w.length) := by
+    nextToken sx (w ++ rest) = .ok (w, .infx, w.length) := by
   cases w with
   | nil => simp [goodOp] at hw
   | cons c w =>
@@ -336,28 +338,32 @@ theorem nextToken_op (w rest : Str) (hw : goodOp w = true)
         simp [g.alpha, g.special])
       (fun d r e => by simp [hr d r e])
     simp only [Bool.not_or] at ht
-    simp [nextToken, h1, h2, h3, h4, f.alpha, ht, Nat.add_comm]
+    have h5 : c ≠ ')' := by
+      have := f.bracket; intro e; subst e; revert this; decide
+    have h6 : c ≠ ']' := by
+      have := f.bracket; intro e; subst e; revert this; decide
+    simp [nextToken, h1, h2, h3, h4, h5, h6, f.alpha, ht, Nat.add_comm]
 
-theorem nextToken_bar (rest : Str) : nextToken ('|' :: rest) = .ok ([], .or, 1) := by
+theorem nextToken_bar (rest : Str) : nextToken sx ('|' :: rest) = .ok ([], .or, 1) := by
   simp [nextToken]
 
 theorem nextToken_paren (s rest : Str) (h : Neutral s) :
-    nextToken ('(' :: s ++ ')' :: rest) = .ok (s, .paren, s.length + 2) := by
+    nextToken sx ('(' :: s ++ ')' :: rest) = .ok (s, .paren, s.length + 2) := by
   have hm := matching_paren s rest h
   simp only [nextToken, hm]
   simp
 
 theorem nextToken_brack (s rest : Str) (h : Neutral s) :
-    nextToken ('[' :: s ++ ']' :: rest) = .ok (s, .brack, s.length + 2) := by
+    nextToken sx ('[' :: s ++ ']' :: rest) = .ok (s, .brack, s.length + 2) := by
   have hm := matching_brack s rest h
   simp only [nextToken, hm]
   simp
 
 /-! ## the character-level machine follows the tokenizer -/
 
-theorem step_paren_w (w : Str) (sub : Res TyO) (st : St) : step .paren w sub st = step .paren [] sub st := rfl
-theorem step_brack_w (w : Str) (sub : Res TyO) (st : St) : step .brack w sub st = step .brack [] sub st := rfl
-theorem step_or_w (w : Str) (sub : Res TyO) (st : St) : step .or w sub st = step .or [] sub st := rfl
+theorem step_paren_w (w : Str) (sub : Res TyO) (st : St) : step sx .paren w sub st = step sx .paren [] sub st := rfl
+theorem step_brack_w (w : Str) (sub : Res TyO) (st : St) : step sx .brack w sub st = step sx .brack [] sub st := rfl
+theorem step_or_w (w : Str) (sub : Res TyO) (st : St) : step sx .or w sub st = step sx .or [] sub st := rfl
 
 def subOf (rec : Str → Res TyO) (k : Kind) (w : Str) : Res TyO :=
   match k with
@@ -366,28 +372,28 @@ def subOf (rec : Str → Res TyO) (k : Kind) (w : Str) : Res TyO :=
   | _ => .error .fuel
 
 theorem loopC_step {rec : Str → Res TyO} {fuel : Nat} {text : Str} {st : St} {w : Str} {k : Kind}
-    {idx : Nat} (ht : text ≠ []) (hn : nextToken text = .ok (w, k, idx)) :
-    loopC rec (fuel + 1) text st =
-      match step k w (subOf rec k w) st with
+    {idx : Nat} (ht : text ≠ []) (hn : nextToken sx text = .ok (w, k, idx)) :
+    loopC sx rec (fuel + 1) text st =
+      match step sx k w (subOf rec k w) st with
       | .error e => .error e
-      | .ok st' => loopC rec fuel (strip (text.drop idx)) st' := by
+      | .ok st' => loopC sx rec fuel (strip (text.drop idx)) st' := by
   rw [loopC]; simp only [ht, if_false, hn]; rfl
 
 theorem loopC_follows (t : Tok) (ts : List Tok) (rec : Str → Res TyO) (fuel : Nat) (text : Str)
     (st : St) (w : Str) (k : Kind) (idx : Nat) (ht : text ≠ [])
-    (hn : nextToken text = .ok (w, k, idx))
-    (hs : step k w (subOf rec k w) st = stepT t st)
-    (hrest : ∀ st', loopC rec fuel (strip (text.drop idx)) st' = loopT ts st') :
-    loopC rec (fuel + 1) text st = loopT (t :: ts) st := by
+    (hn : nextToken sx text = .ok (w, k, idx))
+    (hs : step sx k w (subOf rec k w) st = stepT sx t st)
+    (hrest : ∀ st', loopC sx rec fuel (strip (text.drop idx)) st' = loopT sx ts st') :
+    loopC sx rec (fuel + 1) text st = loopT sx (t :: ts) st := by
   rw [loopC_step ht hn, hs]
-  cases h : stepT t st with
+  cases h : stepT sx t st with
   | error e => rw [loopT_cons_err h]
   | ok st' => rw [loopT_cons_ok h]; exact hrest st'
 
 theorem loopC_of_tokenizeLoop (d : Nat)
-    (ih : ∀ w ks, tokenize d w = .ok ks → autoType d w = autoTypeToks ks) :
+    (ih : ∀ w ks, tokenize sx d w = .ok ks → autoType sx d w = autoTypeToks sx ks) :
     ∀ (fuel : Nat) (text : Str) (ts : List Tok) (st : St),
-      tokenizeLoop (tokenize d) fuel text = .ok ts → loopC (autoType d) fuel text st = loopT ts st := by
+      tokenizeLoop sx (tokenize sx d) fuel text = .ok ts → loopC sx (autoType sx d) fuel text st = loopT sx ts st := by
   intro fuel
   induction fuel with
   | zero => intro text ts st h; simp [tokenizeLoop] at h
@@ -399,19 +405,19 @@ theorem loopC_of_tokenizeLoop (d : Nat)
       cases h
       simp [loopC, ht, loopT]
     · simp only [ht, if_false] at h
-      cases hn : nextToken text with
+      cases hn : nextToken sx text with
       | error e => simp [hn] at h
       | ok r =>
         obtain ⟨w, k, idx⟩ := r
         simp only [hn] at h
-        cases hl : tokenizeLoop (tokenize d) fuel (strip (text.drop idx)) with
+        cases hl : tokenizeLoop sx (tokenize sx d) fuel (strip (text.drop idx)) with
         | error e => cases k <;> simp only [hl] at h <;> first | cases h | (split at h <;> cases h)
         | ok ts' =>
           have hrest := fun st' => ihf (strip (text.drop idx)) ts' st' hl
           simp only [hl] at h
           cases k with
           | paren =>
-            cases hr : tokenize d w with
+            cases hr : tokenize sx d w with
             | error e => simp [hr, Except.map] at h
             | ok ks =>
               simp only [hr, Except.map] at h
@@ -419,7 +425,7 @@ theorem loopC_of_tokenizeLoop (d : Nat)
               exact loopC_follows _ ts' _ fuel text st w .paren idx ht hn
                 (by rw [stepT_paren, ← ih w ks hr]; rfl) hrest
           | brack =>
-            cases hr : tokenize d w with
+            cases hr : tokenize sx d w with
             | error e => simp [hr, Except.map] at h
             | ok ks =>
               simp only [hr, Except.map] at h
@@ -441,7 +447,7 @@ theorem loopC_of_tokenizeLoop (d : Nat)
 
 /-- **the character-level machine is the token-level machine on the tokenizer's output** -/
 theorem autoType_of_tokenize : ∀ (d : Nat) (el : Str) (ts : List Tok),
-    tokenize d el = .ok ts → autoType d el = autoTypeToks ts := by
+    tokenize sx d el = .ok ts → autoType sx d el = autoTypeToks sx ts := by
   intro d
   induction d with
   | zero => intro el ts h; simp [tokenize] at h
@@ -776,14 +782,14 @@ def tokOf (rec : Str → Res (List Tok)) (k : Kind) (w : Str) : Res Tok :=
 
 theorem tokenizeLoop_step {rec : Str → Res (List Tok)} {fuel : Nat} {text w : Str} {k : Kind}
     {idx : Nat} {t : Tok} {ts : List Tok} (ht : text ≠ [])
-    (hn : nextToken text = .ok (w, k, idx)) (hk : tokOf rec k w = .ok t)
-    (hr : tokenizeLoop rec fuel (strip (text.drop idx)) = .ok ts) :
-    tokenizeLoop rec (fuel + 1) text = .ok (t :: ts) := by
+    (hn : nextToken sx text = .ok (w, k, idx)) (hk : tokOf rec k w = .ok t)
+    (hr : tokenizeLoop sx rec fuel (strip (text.drop idx)) = .ok ts) :
+    tokenizeLoop sx rec (fuel + 1) text = .ok (t :: ts) := by
   rw [tokenizeLoop]
   simp only [ht, if_false, hn]
   show (match tokOf rec k w with
     | .error e => .error e
-    | .ok t => match tokenizeLoop rec fuel (strip (text.drop idx)) with
+    | .ok t => match tokenizeLoop sx rec fuel (strip (text.drop idx)) with
       | .error e => .error e
       | .ok ts => .ok (t :: ts) : Res (List Tok)) = _
   rw [hk]; simp only [hr]
@@ -792,15 +798,15 @@ mutual
   theorem tok_main (sp : Spacing) :
       (t : Tok) → tokOK t = true → ∀ (k D : Nat) (rest : Str), Tree.depth t ≤ D →
         (∀ c r, rest = c :: r → followChar t c) →
-        ∃ w kd, nextToken ((renderTok sp t k).1 ++ rest) = .ok (w, kd, (renderTok sp t k).1.length) ∧
-          tokOf (tokenize D) kd w = .ok t
+        ∃ w kd, nextToken sx ((renderTok sp t k).1 ++ rest) = .ok (w, kd, (renderTok sp t k).1.length) ∧
+          tokOf (tokenize sx D) kd w = .ok t
     | .node .paren ks, h => by
       intro k D rest hd _
       simp only [tokOK, Bool.and_eq_true] at h
       have f := toks_facts sp ks h.1 none k
       rw [renderTok_paren]
       refine ⟨(renderToks sp ks none k).1, .paren, ?_, ?_⟩
-      · have := nextToken_paren (renderToks sp ks none k).1 rest f.neutral
+      · have := nextToken_paren (sx := sx) (renderToks sp ks none k).1 rest f.neutral
         simpa using this
       · cases D with
         | zero => simp [Tree.depth] at hd
@@ -815,7 +821,7 @@ mutual
       have f := toks_facts sp ks h.1 none k
       rw [renderTok_brack]
       refine ⟨(renderToks sp ks none k).1, .brack, ?_, ?_⟩
-      · have := nextToken_brack (renderToks sp ks none k).1 rest f.neutral
+      · have := nextToken_brack (sx := sx) (renderToks sp ks none k).1 rest f.neutral
         simpa using this
       · cases D with
         | zero => simp [Tree.depth] at hd
@@ -855,7 +861,7 @@ mutual
   theorem toks_main (sp : Spacing) :
       (ts : List Tok) → toksOK ts = true → chainOK ts = true → ∀ (prev : Option Bool) (k D fuel : Nat),
         Tree.depthList ts ≤ D → ts.length < fuel →
-        tokenizeLoop (tokenize D) fuel (strip (renderToks sp ts prev k).1) = .ok ts
+        tokenizeLoop sx (tokenize sx D) fuel (strip (renderToks sp ts prev k).1) = .ok ts
     | [], _, _ => by
       intro prev k D fuel _ hfuel
       rw [renderToks_nil, strip_blanks]
@@ -1006,14 +1012,59 @@ theorem toksAt_good (e : TyExpr) (hwf : e.wf = true) : ∀ lvl, Good (toksAt lvl
     cuts the rendered text into that tree -/
 theorem tokenize_renderToks (sp : Spacing) (ts : List Tok) (h : toksOK ts = true)
     (hc : chainOK ts = true) :
-    tokenize ((renderToks sp ts none 0).1.length + 1) (renderToks sp ts none 0).1 = .ok ts := by
+    tokenize sx ((renderToks sp ts none 0).1.length + 1) (renderToks sp ts none 0).1 = .ok ts := by
   have f := toks_facts sp ts h none 0
   rw [tokenize]
   exact toks_main sp ts h hc none 0 _ _ f.depth (Nat.lt_succ_of_le f.count)
 
 theorem tokenize_render (sp : Spacing) (e : TyExpr) (hwf : e.wf = true) :
-    tokenize ((render sp e).length + 1) (render sp e) = .ok e.toks := by
+    tokenize sx ((render sp e).length + 1) (render sp e) = .ok e.toks := by
   have g := toksAt_good e hwf 0
   exact tokenize_renderToks sp e.toks g.ok g.chain
+
+/-! ## the malformed texts of finding C15-F4 are cut into the malformed token streams -/
+
+/-- an expression followed by one more token (a dangling operator or `|`) is still readable -/
+theorem readable_snoc (e : TyExpr) (hwf : e.wf = true) (m : Tok) (hm : tokOK m = true) :
+    toksOK (e.toks ++ [m]) = true ∧ chainOK (e.toks ++ [m]) = true := by
+  have g := toksAt_good e hwf 0
+  obtain ⟨r2, t2, ex, ht2⟩ := g.last
+  refine ⟨by simp [TyExpr.toks, toksOK_append, toksOK, g.ok, hm], ?_⟩
+  apply chainOK_append e.toks [m] g.chain rfl
+  intro a b ha hb
+  have : a = t2 := by
+    unfold TyExpr.toks at ha
+    rw [ex] at ha; simpa using ha.symm
+  subst this
+  simp [pairOK, ht2]
+
+/-- an operator followed by an expression is readable -/
+theorem readable_cons (e : TyExpr) (hwf : e.wf = true) (w : Str) (hw : goodOp w = true) :
+    toksOK (.node (.op w) [] :: e.toks) = true ∧ chainOK (.node (.op w) [] :: e.toks) = true := by
+  have g := toksAt_good e hwf 0
+  obtain ⟨t, r, ey, ht⟩ := g.head
+  refine ⟨by simp [TyExpr.toks, toksOK, tokOK, labelOK, hw, g.ok], ?_⟩
+  unfold TyExpr.toks
+  rw [ey]
+  simp only [chainOK, Bool.and_eq_true]
+  exact ⟨by simp [pairOK, ht], by rw [← ey]; exact g.chain⟩
+
+/-- the character-level parser on the text of a readable token stream (any spacing) is the
+    token-level machine on that stream -/
+theorem autoTypeText_renderToks (sp : Spacing) (ts : List Tok) (h : toksOK ts = true)
+    (hc : chainOK ts = true) :
+    autoTypeText sx (renderToks sp ts none 0).1 = autoTypeToks sx ts := by
+  unfold autoTypeText
+  exact autoType_of_tokenize _ _ _ (tokenize_renderToks sp ts h hc)
+
+/-- with the repair a text cannot go on with a closing bracket where a token must start -/
+theorem nextToken_close (c : Char) (rest : Str) (hc : c = ')' ∨ c = ']') :
+    nextToken true (c :: rest) = .error .assertion := by
+  rcases hc with rfl | rfl <;> simp [nextToken, isAlpha]
+
+theorem loopC_close (rec : Str → Res TyO) (fuel : Nat) (c : Char) (rest : Str) (st : St)
+    (hc : c = ')' ∨ c = ']') : loopC true rec (fuel + 1) (c :: rest) st = .error .assertion := by
+  rw [loopC]
+  simp [nextToken_close c rest hc]
 
 end PS.C15
